@@ -152,13 +152,19 @@ func (cd *chunkInfoDiscover) putChunkInfoDiscover(rootCid, overlay boson.Address
 }
 
 func (ci *ChunkInfo) delDiscoverPresence(rootCid boson.Address) bool {
-	if v, ok := ci.cd.presence[rootCid.String()]; ok {
-		for k := range v {
-			err := ci.stateStorer.Delete(generateKey(discoverKeyPrefix, rootCid, boson.MustParseHexAddress(k)))
-			if err != nil {
-				return false
-			}
+	// delete every persisted record of the root, not only those of the overlays held
+	// in memory: records skipped at start-up (file not readable then) would survive
+	delKey := discoverKeyPrefix + rootCid.String()
+	if err := ci.stateStorer.Iterate(delKey, func(k, v []byte) (bool, error) {
+		if !strings.HasPrefix(string(k), delKey) {
+			return false, nil
 		}
+		if err := ci.stateStorer.Delete(string(k)); err != nil {
+			return true, err
+		}
+		return false, nil
+	}); err != nil {
+		return false
 	}
 
 	delete(ci.cd.presence, rootCid.String())
